@@ -125,7 +125,8 @@ def sweep(tier: str) -> Sweep:
                 sw.check(False, "comparison raised", {**case, "clause": "no-exception"}, None, f"{type(e).__name__}: {e}")
     # semantic versions: build ignored, pre-release below release, release numbers dominate
     S = CLS["sem"]
-    for s, o in P["sem"]:
+    every_tag = [(s_, o_) for strs in sem_same_release(("1.0.0", "0.0.0", "10.9.8")).values() for s_ in strs if (o_ := parse_ok(S, s_)) is not None]
+    for s, o in dict.fromkeys(P["sem"] + every_tag):
         case = {"cls": "sem", "a": s}
         sw.note(["sem", s])
         try:
